@@ -93,9 +93,16 @@ func (encryptor *HashQuery) OnQuery(ctx context.Context, query mysql.OnQueryObje
 			continue
 		}
 
+		lColumn, ok := item.Expr.Left.(*sqlparser.ColName)
+		if !ok {
+			// already rewritten: a comparison inside a sub-select is listed once for every WHERE clause that
+			// contains it (the filter accepts the rewritten form, substring(column, ...), too)
+			continue
+		}
+
 		// column = 'value' ===> substring(column, 1, <HMAC_size>) = 'value'
 		item.Expr.Left = &sqlparser.SubstrExpr{
-			Name: item.Expr.Left.(*sqlparser.ColName),
+			Name: lColumn,
 			From: sqlparser.NewIntVal([]byte{'1'}),
 			To:   sqlparser.NewIntVal(hashSize),
 		}
